@@ -58,7 +58,7 @@ class Ctx:
         os.makedirs(self.cache_home)
         # one run directory per invocation, so that a --replay or a second check of the same
         # property started meanwhile cannot wipe the generated .v files of this one
-        base = os.path.join(COQ, "run", pid)
+        base = os.path.join(VERIF, "coqrun", pid)   # outside the -Q coq PV tree: coqdep never scans it
         os.makedirs(base, exist_ok=True)
         for old in os.listdir(base):
             op = os.path.join(base, old)
